@@ -59,6 +59,7 @@ func oracleC16(fi *FileInfo) *ev.Failure {
 func TestC16(t *testing.T) {
 	rec := ev.New("C16", "case = (schema file of the corpus [feature matrix + seeded random schemas], runtime variant, option combination {apiversion v1|v2} x {single file, file per message} x {unsafe decode on/off}); the working-tree plug-in is run twice on the identical request in separate processes (different working directory, TZ, HOME, > 1 s apart); oracle: no plug-in error, byte-identical responses, every file name emitted once and equal to the documented pattern, every file parses (go/parser), the package builds together with the message types of the matching runtime (go build per package); non-trivial = a schema using at least one feature beyond singular scalars; distinct by (file, variant)")
 	defer rec.Write()
+	useRecorder(rec)
 	defer func() { t.Log(rec.Summary()); fmt.Print(rec.SurveyReport()) }()
 	loadCorpus()
 	shard, shards := ev.Shard()
@@ -287,6 +288,7 @@ func posOf(unset []string) string {
 func TestC17(t *testing.T) {
 	rec := ev.New("C17", "case = (proto2 generated type with required fields of its own or in children reached through a field / required field / list / map / oneof, subset of those required fields left unset); every subset is enumerated per type (up to 2^8), plus the completely empty message and the empty input; oracle = reference verdict: Marshal fails <=> proto.CheckInitialized fails; generated Unmarshal of the reference's AllowPartial encoding fails <=> the strict reference Unmarshal fails; non-trivial = >= 1 required field unset; distinct by (type, subset)")
 	defer rec.Write()
+	useRecorder(rec)
 	defer func() { t.Log(rec.Summary()); fmt.Print(rec.SurveyReport()) }()
 	types := fmTypes(func(mt *MsgType) bool {
 		return mt.Info.Syntax == "proto2" && len(requiredSlots(mt.Desc, nil, 0, map[protoreflect.FullName]int{})) > 0
